@@ -62,6 +62,7 @@ def run(ctx):
         ctx.sample({"apply": recs[len(recs) // 3], "result": out[len(recs) // 3]})
     dispatch(ctx, binp)
     wire_rules(ctx, "C16:wire:user-agent", q)
+    connect_wire_rules(ctx, q)
 
 
 def wire_rules(ctx, prefix, q=True):
@@ -131,6 +132,70 @@ def wire_rules(ctx, prefix, q=True):
             except Exception:
                 p.kill()
             origin.close()
+
+
+def connect_wire_rules(ctx, q=True):
+    """--connect-header rule lists on the CONNECT the proxy's transport itself sends to an upstream proxy (for an https URL
+    in absolute form): that request starts with no fields of the client's, so what the upstream proxy sees under the rules'
+    name is the model's result of applying the list to the empty header set - adds, removals and respellings in order."""
+    import socket, subprocess, time
+    import c19
+    recs, _, _, _ = ctx.gen("HeaderRules.tla", "GEN_HeaderRulesApply_Q.cfg")
+    J = lambda cs: "".join(cs)
+    groups = {}
+    for r in recs:
+        if "rules" not in r or r["hdr"]:
+            continue
+        rules = [J(x) for x in r["rules"]]
+        if not all(("x-b" in x.lower()) or x == "-x-*" for x in rules):
+            continue
+        groups[tuple(rules)] = [f for f in r["out"] if J(f["n"]) == "x-b"]
+    keys = sorted(groups)
+    order_dependent = [k for k in keys if len(k) > 1 and any(x.startswith(("-", "%")) for x in k[1:]) and not k[0].startswith(("-", "%"))]
+    pick = [k for k in keys if len(k) == 1] + vlib.sample_list(ctx.rng, order_dependent, 8 if q else 80)
+    fwd = ctx.build_cmd_forwarder()
+    for rules in pick:
+        want = groups[rules]
+        origin, upstream = c19.Peer(), c19.Peer()
+        origin.start(); upstream.start()
+        addr, api = c19.free_port(), c19.free_port()
+        args = [fwd, "run", "--address", "127.0.0.1:%d" % addr, "--api-address", "127.0.0.1:%d" % api, "--proxy-localhost", "allow",
+                "--proxy", "http://127.0.0.1:%d" % upstream.port, "--log-level", "error"]
+        for x in rules:
+            args += ["--connect-header", x]
+        p = subprocess.Popen(args, stdout=subprocess.DEVNULL, stderr=subprocess.DEVNULL)
+        try:
+            for _ in range(300):
+                try:
+                    socket.create_connection(("127.0.0.1", addr), timeout=0.2).close()
+                    break
+                except OSError:
+                    time.sleep(0.05)
+            tgt = "127.0.0.1:%d" % origin.port
+            c19.http_exchange(("127.0.0.1", addr), ("GET https://%s/c HTTP/1.1\r\nHost: %s\r\nConnection: close\r\n\r\n" % (tgt, tgt)).encode())
+            heads = [h for h in upstream.seen if h.startswith("CONNECT ")]
+            head = heads[0] if heads else ""
+            got = [(ln.split(":", 1)[0], ln.split(":", 1)[1].strip()) for ln in head.split("\r\n")[1:] if ln.lower().startswith("x-b:")]
+            ctx.evaluations += 1
+            ctx.nontrivial.add("connect-wire-rules:%s" % "|".join(rules))
+            exp_vals = [J(f["v"]) for f in want]
+            ok = head != "" and [v for _, v in got] == exp_vals
+            for (sp, _), f in zip(got, want):
+                if ok and f.get("pin"):
+                    ok = sp == J(f["sp"])
+            if not ok:
+                what = "no-connect" if not head else "kept" if len(got) > len(exp_vals) else "dropped" if len(got) < len(exp_vals) else "altered"
+                ctx.violation("C16:wire:connect-header:%s" % what, {"rules": list(rules), "upstream_proxy_saw": got,
+                              "expected": [(J(f["sp"]) if f.get("pin") else "(any spelling)", J(f["v"])) for f in want], "head": head[:300]})
+            else:
+                ctx.traces_ok += 1
+        finally:
+            p.terminate()
+            try:
+                p.wait(timeout=5)
+            except Exception:
+                p.kill()
+            origin.close(); upstream.close()
 
 
 def dispatch(ctx, binp):
